@@ -18,6 +18,7 @@
 #include <cstdlib>
 #include <exception>
 #include <functional>
+#include <initializer_list>
 #include <map>
 #include <memory>
 #include <string>
@@ -97,6 +98,30 @@ struct Str
   explicit operator long() const { return std::stol(s.substr(40)); }
 };
 inline void put(std::string& s, const Str& x) { s += "s:" + x.s.substr(40); }
+
+// a JSON-like value: a number or an array of values, with a constructor from a LIST OF VALUES — which accepts a Json
+// itself: Json{j} is a one-element array wrapping j, Json(j) is a copy of j.  An adaptor that stores a bound value must
+// store a copy; the printed form tells the two apart ("j:7" / "j:[7]").
+struct Json
+{
+  int n = 0;
+  bool arr = false;
+  std::vector<Json> kids;
+  Json() {}
+  explicit Json(int n_) : n(n_) {}
+  Json(std::initializer_list<Json> l) : arr(true), kids(l) {}
+  explicit operator long() const { return arr ? -800000L : n; }
+  std::string text() const
+  {
+    if (!arr)
+      return std::to_string(n);
+    std::string t = "[";
+    for (std::size_t i = 0; i < kids.size(); ++i)
+      t += (i ? "|" : "") + kids[i].text();
+    return t + "]";
+  }
+};
+inline void put(std::string& s, const Json& j) { s += "j:" + j.text(); }
 
 // pool objects that reference-returning targets refer to: cell<T>(id) (node based map: stable addresses)
 template<typename T>
